@@ -1,6 +1,6 @@
 (* C15: proofs about the reload / request transition system of model/Snapshot.v. *)
 From Coq Require Import List ZArith Bool Lia.
-From Bfe Require Import lib.Val lib.ValProofs model.Snapshot run.RunC15.
+From Bfe Require Import lib.Val lib.ValProofs model.Snapshot model.SnapshotTlsWire run.RunC15.
 Import ListNotations.
 Open Scope Z_scope.
 
@@ -660,7 +660,14 @@ Theorem prop_C15_of_model_partial : forall i ops,
   decode_C15 i = Some ops -> forallb (fun o => negb (is_burst o)) ops = true ->
   prop_C15 i (run_C15 i) = true.
 Proof.
-  intros i ops Hd Hnb. unfold prop_C15, run_C15. rewrite Hd.
+  intros i ops Hd Hnb.
+  assert (Ht : SnapshotTlsWire.decode_tls i = None).
+  { unfold SnapshotTlsWire.decode_tls. destruct i as [| |l]; auto. destruct l as [|a l]; auto.
+    destruct a as [z| |]; auto. destruct z as [|p|]; auto.
+    do 7 (destruct p as [p|p|]; auto). destruct l as [|b l]; auto. destruct b as [| |bl]; auto. destruct l; auto.
+    (* the input is [100 [...]]: not a list of ops *)
+    exfalso. unfold decode_C15 in Hd. destruct (length [VZ 100; VL bl] <=? 14)%nat; discriminate. }
+  unfold prop_C15, run_C15. rewrite Ht, Hd.
   destruct (exec_ops h_init ops) as [l|] eqn:E.
   - rewrite (exec_ops_sound ops h_init p_init l R_init); auto.
     unfold decode_C15 in Hd. destruct i as [| |vs]; try discriminate.
